@@ -56,6 +56,12 @@ CHECKS.update({
          "bash 5.2.15 reference; kept out of the generated domain because bash itself is irregular there: patterns that can match the empty string in ${p/pat/rep}, negative lengths on arrays/positional parameters, ${@@A}/${a[@]@A}, @Q/@A text of values containing single quotes (round-trip is C13's subject), locale-dependent classes on non-ASCII values", "DESIGN.md §3 C06"),
 })
 
+CHECKS.update({
+ "C09": ("history-style property testing: generated action sequences with a state probe after every step, differential oracle vs bash 5.2.15, plus a readonly invariant over the trace",
+         "6k (quick) / 80k (thorough) generated programs of declare/local/export/readonly/unset/assignment/+=/element assignment/for/read/printf -v/(( ))/${v:=}/getopts/mapfile actions with function calls to depth 3 and temporary-assignment prefixes on builtins, eval, functions and an external child; `declare -p` of all tracked names and the child's environment compared with bash after every action; a tail of writer attacks on a readonly name checked against the invariant that its declare line never changes. Exploration.",
+         "bash 5.2.15 reference; temporary assignments are placed on reader functions only and readonly attacks run at top level only (what a callee that writes a temporarily assigned or readonly name leaves behind, and how far a failed assignment unwinds, differ between bash modes); -l with -u never combined", "DESIGN.md §3 C09"),
+})
+
 NOT_YET = {}
 
 def hooks():
